@@ -191,7 +191,11 @@ RdVecRoom(L, md, s, f, kind, n, room) ==
                ELSE FailAt(s1, "badVecCount", f)
           ELSE IF n = 0 THEN Put(s, f, <<>>)
                ELSE IF cnt = n /\ ~bad THEN Put(s1, f, vec) ELSE FailAt(s1, "badVecCount", f)
-RdVec(L, md, s, f, kind, n) == RdVecRoom(L, md, s, f, kind, n, 0)
+\* _recordReadVec starts with vec.resize(nvalues)
+RdVec(L, md, s, f, kind, n) ==
+  IF ~s.ok \/ n < 0 THEN RdVecRoom(L, md, s, f, kind, n, 0)
+  ELSE IF md = "real" /\ n > 100000 THEN FailAt(Ev(s, "allocHuge"), "badVecCount", f)
+  ELSE RdVecRoom(L, md, IF md = "real" /\ n > RemainingTokens(L, s) + 1 THEN Ev(s, "allocUnbounded") ELSE s, f, kind, n, 0)
 
 \* a count read from the file is used to size a container
 Alloc(L, md, s, n) ==
@@ -250,7 +254,7 @@ W_DbPart(o) ==
 RECURSIVE R_DbRows(_, _, _, _, _, _)
 R_DbRows(L, md, s, e, nech, ncol) ==
   IF e > nech \/ ~s.ok THEN s
-  ELSE LET r == RdVecRoom(L, md, s, "vec", "d", ncol, IF e = nech THEN 0 ELSE 1)
+  ELSE LET r == RdVecRoom(L, md, s, "vec", "d", ncol, IF ncol > 0 THEN nech - e ELSE 0)     \* free slots behind this row in allvalues
        IN R_DbRows(L, md, IF r.ok THEN Put(r, "rows", Append(s.o.rows, r.o.vec)) ELSE r, e + 1, nech, ncol)
 
 R_DbPart(L, md, s0) ==
@@ -262,7 +266,9 @@ R_DbPart(L, md, s0) ==
       sc   == IF md = "ideal" /\ (ncol < 0 \/ nech < 0) THEN Fail(s2, "badCount") ELSE s2
       s3   == IF ncol > 0 THEN RdVec(L, md, RdVec(L, md, sc, "locators", "s", ncol), "names", "s", ncol)
               ELSE Put(Put(sc, "locators", <<>>), "names", <<>>)
-      s4   == Alloc(L, md, s3, BigCount(nech, ncol))
+      \* "VectorDouble allvalues(nech * ncol)" is executed even when the Locators / Names lines could not be read
+      sa   == Alloc(L, md, [s3 EXCEPT !.ok = TRUE], BigCount(nech, ncol))
+      s4   == IF s3.ok THEN sa ELSE [sa EXCEPT !.ok = FALSE, !.at = s3.at]
       s5   == R_DbRows(L, md, Put(LoopGuard(L, md, s4, nech), "rows", <<>>), 1, nech, ncol)
   IN IF ~s5.ok THEN s5 ELSE
      LET locs == s5.o.locators
@@ -451,7 +457,9 @@ R_Model(L, md, s0) ==
   LET ndim == s5.o.ndim
       nvar == s5.o.nvar
       sa == IF md = "ideal" /\ (ndim < 1 \/ nvar < 1 \/ ndim > 3 \/ s5.o.ncova < 0 \/ s5.o.nbfl < 0) THEN Fail(s5, "badCount") ELSE s5
-      sb == Alloc(L, md, Alloc(L, md, sa, BigCount(nvar, nvar)), ndim)           \* CovContext(nvar, ndim)
+      \* CovContext(nvar, ndim): a space of dimension < 1 or no variable is accepted by the real reader (the object is unusable)
+      sd == IF md = "real" /\ (ndim < 1 \/ nvar < 1) THEN Ev(sa, "badDims") ELSE sa
+      sb == Alloc(L, md, Alloc(L, md, sd, BigCount(nvar, nvar)), ndim)
       s6 == R_Covs(L, md, Put(LoopGuard(L, md, sb, s5.o.ncova), "covs", <<>>), 1, IF sb.ok THEN s5.o.ncova ELSE 0, ndim)
       s7 == R_Drifts(L, md, Put(LoopGuard(L, md, s6, s5.o.nbfl), "drifts", <<>>), 1, IF s6.ok THEN s5.o.nbfl ELSE 0)
       s8 == IF s7.ok /\ s5.o.nbfl <= 0 THEN RdMany(L, md, Put(s7, "means", <<>>), "means", "d", nvar) ELSE Put(s7, "means", <<>>)
@@ -852,7 +860,7 @@ FaultList(L, c) ==
   \o [l \in 1..(Len(L) - 1) |-> [kind |-> "dropline", k |-> l + 1, t |-> ""]]
 
 \* events of the transcribed reader that are memory-unsafe or unbounded in the real code
-UnsafeEvents == {"vecOverflow", "allocNegative", "allocHuge", "allocUnbounded", "loopUnbounded", "writeUnsized", "useAfterClear", "gridSizeMismatch", "badEnum"}
+UnsafeEvents == {"vecOverflow", "allocNegative", "allocHuge", "allocUnbounded", "loopUnbounded", "writeUnsized", "useAfterClear", "gridSizeMismatch", "badEnum", "badDims"}
 \* events by which the transcribed reader accepts what the intended reader refuses
 LenientEvents == {"eofDefault", "wordAsZero", "dbPartIgnored", "uninitReturn"}
 
